@@ -450,19 +450,23 @@ func (proj *Project) saveTargetInfo(label *label.Label, info targetInfo) error {
 		return err
 	}
 
+	verifCrash("save.mkdir", label.String())
 	f, err := os.CreateTemp(proj.temp, "")
 	if err != nil {
 		return err
 	}
 	tempName := f.Name()
+	verifCrash("save.created", label.String())
 
 	if err = json.NewEncoder(f).Encode(info); err != nil {
 		return err
 	}
+	verifCrash("save.encoded", label.String())
 	if err = f.Close(); err != nil {
 		return err
 	}
 
+	verifCrash("save.closed", label.String())
 	return os.Rename(tempName, path)
 }
 
@@ -508,13 +512,16 @@ func (proj *Project) loadPackage(wg *sync.WaitGroup, path string) error {
 }
 
 func (proj *Project) loadModule(waiter *module, label *label.Label) (starlark.StringDict, error) {
+	verifYield("lm.enter", label.String())
 	proj.m.Lock()
 	if m, ok := proj.modules[label.String()]; ok {
 		proj.m.Unlock()
 
 		if waiter != nil {
+			verifYield("lm.setloading", label.String())
 			waiter.setLoading(m)
 			defer waiter.setLoading(nil)
+			defer verifYield("lm.clear", label.String())
 		}
 
 		return m.wait(waiter)
@@ -526,10 +533,13 @@ func (proj *Project) loadModule(waiter *module, label *label.Label) (starlark.St
 	proj.m.Unlock()
 
 	if waiter != nil {
+		verifYield("lm.setloading", label.String())
 		waiter.setLoading(m)
 		defer waiter.setLoading(nil)
+		defer verifYield("lm.clear", label.String())
 	}
 
+	verifYield("lm.load", label.String())
 	return m.load(proj)
 }
 
